@@ -17,6 +17,11 @@ def ownerP (recs : List Record) (p : Str) : Option Record := recs.find? fun r =>
 /-- the record that lists `k` as canonical URI prefix or synonym -/
 def ownerU (recs : List Record) (k : Str) : Option Record := recs.find? fun r => r.allU.contains k
 
+/-- the pattern registered for the canonical prefix `p` (a pattern that is `None` or empty counts as
+no pattern) -/
+def patternOf (recs : List Record) (p : Str) : Option Str :=
+  (recs.find? fun r => r.pfx == p).bind Record.truePattern
+
 /-- all `(registered URI prefix, owning record)` pairs whose URI prefix is a prefix of `u` -/
 def matchesU (recs : List Record) (u : Str) : List (Str × Record) :=
   recs.flatMap fun r => (r.allU.filter fun k => k.isPrefixOf u).map fun k => (k, r)
